@@ -71,6 +71,17 @@ def run(tier, argv):
         e = lines3[m["line"] - 1]
         bad.append({"what": m["what"], "dialect": "enum (notation automaton)", "text": e["text"], "ok": e["ok"], "len": e["len"], "msg": e.get("msg")})
     lines = lines + [dict(e, dialect="enum-notation") for e in lines3]
+    # a regex type is a schema too: its Len is the length of the /P/ token whatever follows (reference automaton RegexText)
+    gpr, gr = jsongraph.export_regex_graph(work, rep, "l", 6 if quick else 9)
+    rout = work.path("rlen.ndjson")
+    p = vlib.run_harness(hbin, ["c05graph", "-graph", gpr, "-out", rout, "-sut", "regex"], timeout=3000)
+    if p.returncode != 0:
+        raise vlib.Infra("c05graph (regex) failed: " + p.stderr.decode()[-2000:])
+    rs = semcommon.summary_of(p.stderr)
+    rep.notes["regex_token"] = {k: rs[k] for k in ("states", "transitions", "tests", "unspecified", "mismatches")}
+    for m in vlib.read_ndjson(rout):
+        if m["what"] == "len":
+            bad.append({"what": m["want"], "dialect": "regex type", "text": bytes(m["bytes"]).decode("latin-1"), "ok": m["got"].get("ok"), "len": m["got"].get("pos"), "msg": m["got"].get("msg")})
     by = {}
     for e in lines:
         by[e["dialect"]] = by.get(e["dialect"], 0) + 1
